@@ -16,6 +16,9 @@ import (
 	"encoding/json"
 	"flag"
 	"fmt"
+	"net/http"
+	"net/http/httptest"
+	"net/url"
 	"os"
 	"strings"
 	"sync"
@@ -25,16 +28,14 @@ import (
 	"github.com/lestrrat-go/jwx/v2/jwa"
 	"github.com/lestrrat-go/jwx/v2/jwk"
 	"github.com/lestrrat-go/jwx/v2/jws"
-	"golang.org/x/oauth2"
 
-	"github.com/nais/wonderwall/pkg/config"
-	"github.com/nais/wonderwall/pkg/openid"
+	"github.com/nais/wonderwall/pkg/cookie"
 	openidconfig "github.com/nais/wonderwall/pkg/openid/config"
 	"github.com/nais/wonderwall/pkg/openid/provider"
 )
 
 func init() {
-	register("idtoken", "C03: openid.NewTokens on a fault lattice of minted ID tokens vs Model/IdToken.v", runIDToken)
+	register("idtoken", "C03: a fault lattice of minted ID tokens and token responses through the real login + callback handlers vs Model/IdToken.v", runIDToken)
 }
 
 // dimension values of one lattice point
@@ -53,6 +54,7 @@ type idtPoint struct {
 	acr    string // missing | empty | substantial | high | other | number
 	acrCfg string // "" (not configured) | substantial | high | Level3 | Level4 | other
 	shape  string // ok | noidtoken | notstring | malformed
+	jwks   string // fresh | stale (the cached key set predates a key rotation: it lacks k0; a forced refresh returns the full set)
 	nowOff time.Duration
 }
 
@@ -71,10 +73,11 @@ var idtDims = map[string][]string{
 	"acr":    {"missing", "empty", "substantial", "high", "other", "number"},
 	"acrcfg": {"", "substantial", "high", "Level3", "Level4", "other"},
 	"shape":  {"ok", "noidtoken", "notstring", "malformed"},
+	"jwks":   {"fresh", "stale"},
 	"now":    {"0", "300ms", "700ms"},
 }
 
-var idtOrder = []string{"sig", "keys", "iss", "aud", "exp", "iat", "nbf", "nonce", "sub", "sid", "sidreq", "acr", "acrcfg", "shape", "now"}
+var idtOrder = []string{"sig", "keys", "iss", "aud", "exp", "iat", "nbf", "nonce", "sub", "sid", "sidreq", "acr", "acrcfg", "shape", "jwks", "now"}
 
 func (p *idtPoint) set(dim, v string) {
 	switch dim {
@@ -106,6 +109,8 @@ func (p *idtPoint) set(dim, v string) {
 		p.acrCfg = v
 	case "shape":
 		p.shape = v
+	case "jwks":
+		p.jwks = v
 	case "now":
 		switch v {
 		case "300ms":
@@ -120,7 +125,7 @@ func (p *idtPoint) set(dim, v string) {
 
 func idtBaseline() idtPoint {
 	return idtPoint{sig: "rs-k0", keys: "alg", iss: "ok", aud: "str", exp: "far", iat: "past", nbf: "missing", nonce: "ok", sub: "ok",
-		sid: "present", sidReq: true, acr: "high", acrCfg: "", shape: "ok"}
+		sid: "present", sidReq: true, acr: "high", acrCfg: "", shape: "ok", jwks: "fresh"}
 }
 
 type idtKeys struct {
@@ -142,10 +147,7 @@ func idtSharedKeys() idtKeys {
 	return idtK
 }
 
-const (
-	idtClientID = "client-id"
-	idtNonce    = "the-nonce-of-this-attempt"
-)
+const idtClientID = "client-id"
 
 func acrString(v string) string {
 	switch v {
@@ -164,7 +166,7 @@ func acrString(v string) string {
 func b64(b []byte) string { return base64.RawURLEncoding.EncodeToString(b) }
 
 // mint builds the compact JWS by hand so that every header / signature combination can be produced.
-func idtMint(p idtPoint, now time.Time) (raw string, model string) {
+func idtMint(p idtPoint, now time.Time, idtNonce string) (raw string, model string) {
 	keys := idtSharedKeys()
 	hdr := map[string]any{"typ": "JWT"}
 	claims := map[string]any{}
@@ -336,7 +338,7 @@ func idtMint(p idtPoint, now time.Time) (raw string, model string) {
 	return raw, model
 }
 
-func idtKeySet(p idtPoint, prov openidconfig.Provider) (jwk.Set, string, string, error) {
+func idtKeySet(p idtPoint, prov openidconfig.Provider, stale bool) (jwk.Set, string, string, error) {
 	keys := idtSharedKeys()
 	set := jwk.NewSet()
 	k0, _ := jwk.FromRaw(&keys.k0.PublicKey)
@@ -361,7 +363,9 @@ func idtKeySet(p idtPoint, prov openidconfig.Provider) (jwk.Set, string, string,
 	case "noalg-raw":
 		mAlg = "~"
 	}
-	set.AddKey(k0)
+	if !stale {
+		set.AddKey(k0)
+	}
 	set.AddKey(e0)
 	if p.keys == "noalg-mutated" {
 		out, err := provider.VerifKeySetMutator(prov).PostFetch("http://idp/jwks", set)
@@ -371,6 +375,9 @@ func idtKeySet(p idtPoint, prov openidconfig.Provider) (jwk.Set, string, string,
 		set = out
 	}
 	model := fmt.Sprintf("%s %s,1,%s,%s;%s,3,ES256,none", mutate, hx("k0"), mAlg, mUse, hx("e0"))
+	if stale {
+		model = fmt.Sprintf("%s %s,3,ES256,none", mutate, hx("e0"))
+	}
 	return set, model, mutate, nil
 }
 
@@ -411,7 +418,7 @@ func runIDToken(args []string) error {
 					p2.set(d2, v2)
 					points = append(points, p2)
 					if *tier == "thorough" {
-						for _, d3 := range []string{"sig", "keys", "aud", "exp", "acrcfg", "sidreq"} {
+						for _, d3 := range []string{"sig", "keys", "aud", "exp", "acrcfg", "sidreq", "jwks"} {
 							if d3 == d1 || d3 == d2 {
 								continue
 							}
@@ -426,62 +433,136 @@ func runIDToken(args []string) error {
 			}
 		}
 	}
+	// one real stack per deployment configuration (configured acr x sid requirement); the points of a group run through it
+	type gkey struct {
+		acr    string
+		sidReq bool
+	}
+	groups := map[gkey][]idtPoint{}
+	var order []gkey
+	for _, p := range points {
+		k := gkey{p.acrCfg, p.sidReq}
+		if _, ok := groups[k]; !ok {
+			order = append(order, k)
+		}
+		groups[k] = append(groups[k], p)
+	}
 	count := 0
 	var rerr error
-	synctest.Run(func() {
-		start := time.Now()
-		for _, p := range points {
-			// advance the fake clock to the wanted sub-second offset within a fresh second
-			time.Sleep(time.Second - time.Since(start)%time.Second + p.nowOff)
-			now := time.Now()
-			cfg := &config.Config{OpenID: config.OpenID{ClientID: idtClientID, ACRValues: acrString(p.acrCfg), Audiences: []string{"trusted-aud"}}}
-			prov := &hProvider{issuer: idpIssuer, sidRequired: p.sidReq}
-			oc := &hOpenID{c: &hClient{cfg: cfg, method: openidconfig.AuthMethodClientSecret}, p: prov}
-			set, keysModel, _, err := idtKeySet(p, prov)
+	for _, gk := range order {
+		synctest.Run(func() {
+			s, err := newStack(stackOpts{maxLifetime: 10 * time.Hour, acr: acrString(gk.acr), sidOptional: !gk.sidReq, audiences: []string{"trusted-aud"}, useSecret: true, updAtomic: true})
 			if err != nil {
 				rerr = err
 				return
 			}
-			raw, tokModel := idtMint(p, now)
-			tok := &oauth2.Token{AccessToken: "at", RefreshToken: "rt", Expiry: now.Add(time.Hour)}
-			switch p.shape {
-			case "ok":
-				tok = tok.WithExtra(map[string]any{"id_token": raw})
-			case "notstring":
-				tok = tok.WithExtra(map[string]any{"id_token": 42})
-			case "malformed":
-				tok = tok.WithExtra(map[string]any{"id_token": "not.a-jwt"})
-			case "noidtoken":
-				tok = tok.WithExtra(map[string]any{})
+			defer s.close()
+			start := time.Now()
+			for _, p := range groups[gk] {
+				// advance the fake clock to the wanted sub-second offset within a fresh second
+				time.Sleep(time.Second - time.Since(start)%time.Second + p.nowOff)
+				// the browser starts a login attempt at the real login endpoint
+				req := httptest.NewRequest("GET", "http://wonderwall/oauth2/login", nil)
+				navHeaders(req)
+				rec := s.serveMain(req)
+				if rec.Code != http.StatusFound {
+					rerr = fmt.Errorf("login: status %d body %s", rec.Code, rec.Body.String())
+					return
+				}
+				loc, _ := url.Parse(rec.Header().Get("Location"))
+				params := loc.Query()
+				lc, _ := cookieValue(rec, cookie.Login)
+				nonce := params.Get("nonce")
+				cookieAcr := params.Get("acr_values")
+				// the provider's published keys, as wonderwall's cache sees them now and after a forced refresh
+				cached, keysModel, _, err := idtKeySet(p, s.oidc.p, p.jwks == "stale")
+				if err != nil {
+					rerr = err
+					return
+				}
+				full, _, _, _ := idtKeySet(p, s.oidc.p, false)
+				s.idp.jwksGet = func() jwk.Set { return cached }
+				s.idp.jwksRefresh = func() jwk.Set { return full }
+				now := time.Now()
+				raw, tokModel := idtMint(p, now, nonce)
+				s.idp.rawIDToken = func(*authzRequest) (any, bool) {
+					switch p.shape {
+					case "notstring":
+						return 42, true
+					case "malformed":
+						return "not.a-jwt", true
+					case "noidtoken":
+						return nil, false
+					}
+					return raw, true
+				}
+				code := s.idp.authorize(params, "sid-1", "")
+				q := url.Values{"code": {code}, "state": {params.Get("state")}}
+				cb := httptest.NewRequest("GET", "http://wonderwall/oauth2/callback?"+q.Encode(), nil)
+				navHeaders(cb)
+				cb.AddCookie(&http.Cookie{Name: cookie.Login, Value: lc})
+				cb.AddCookie(&http.Cookie{Name: cookie.Retry, Value: "9"})
+				keysBefore := memStoreKeys(s)
+				rec2 := s.serveMain(cb)
+				sc, hasCookie := cookieValue(rec2, cookie.Session)
+				keysAfter := memStoreKeys(s)
+				accepted := rec2.Code == http.StatusFound && hasCookie && sc != ""
+				// the end-to-end effect: a session exists (and is usable) iff the response was accepted
+				usable := false
+				if hasCookie && sc != "" {
+					ir := httptest.NewRequest("GET", "http://wonderwall/oauth2/session", nil)
+					ir.AddCookie(&http.Cookie{Name: cookie.Session, Value: sc})
+					usable = s.serveMain(ir).Code == http.StatusOK
+				}
+				fmt.Fprintf(win, "idtok %s %s %s %d %d %d | %s | %s | %s %s %d | %s\n", hx(idpIssuer), hx(idtClientID), hx("trusted-aud"), bi(p.sidReq), bi(p.acrCfg != ""), bi(*expStrict),
+					keysModel, tokModel, hx(nonce), hx(cookieAcr), now.UnixNano(), p.shape)
+				fmt.Fprintln(wimpl, bi(accepted))
+				errs := ""
+				if !accepted {
+					_, _, msgs := s.logScan()
+					for i := len(msgs) - 1; i >= 0 && i >= len(msgs)-6; i-- {
+						if strings.Contains(msgs[i], "callback") || strings.Contains(msgs[i], "token") {
+							errs = msgs[i]
+							break
+						}
+					}
+				}
+				ob, _ := json.Marshal(map[string]any{"point": fmt.Sprintf("%+v", p), "accepted": accepted, "error": errs, "status": rec2.Code,
+					"session_cookie": hasCookie && sc != "", "session_usable": usable, "store_keys_before": keysBefore, "store_keys_after": keysAfter,
+					"sig": p.sig, "keys": p.keys, "iss": p.iss, "aud": p.aud, "exp": p.exp, "iat": p.iat, "nbf": p.nbf, "nonce": p.nonce, "sub": p.sub,
+					"sid": p.sid, "sidreq": p.sidReq, "acr": p.acr, "acrcfg": p.acrCfg, "shape": p.shape, "jwks": p.jwks, "now_off_ms": int64(p.nowOff / time.Millisecond)})
+				wobs.Write(ob)
+				wobs.WriteByte('\n')
+				count++
+				// leave an empty store for the next point
+				s.gmem.mu.Lock()
+				ks := make([]string, 0, len(s.gmem.keys))
+				for k := range s.gmem.keys {
+					ks = append(ks, k)
+				}
+				s.gmem.mu.Unlock()
+				for _, k := range ks {
+					s.gmem.inner.Delete(context.Background(), k)
+				}
+				s.logs.reset()
 			}
-			cookieAcr := acrString(p.acrCfg)
-			if p.acrCfg == "Level3" {
-				cookieAcr = "idporten-loa-substantial" // getAcrParam translates a supported legacy value
-			} else if p.acrCfg == "Level4" {
-				cookieAcr = "idporten-loa-high"
-			}
-			lc := &openid.LoginCookie{Nonce: idtNonce, Acr: cookieAcr, State: "s", CodeVerifier: "v", RedirectURI: "r"}
-			_, verr := openid.NewTokens(tok, &set, oc, lc)
-			accepted := verr == nil
-			fmt.Fprintf(win, "idtok %s %s %s %d %d %d | %s | %s | %s %s %d | %s\n", hx(idpIssuer), hx(idtClientID), hx("trusted-aud"), bi(p.sidReq), bi(p.acrCfg != ""), bi(*expStrict),
-				keysModel, tokModel, hx(idtNonce), hx(cookieAcr), now.UnixNano(), p.shape)
-			fmt.Fprintln(wimpl, bi(accepted))
-			errs := ""
-			if verr != nil {
-				errs = verr.Error()
-			}
-			ob, _ := json.Marshal(map[string]any{"point": fmt.Sprintf("%+v", p), "accepted": accepted, "error": errs,
-				"sig": p.sig, "keys": p.keys, "iss": p.iss, "aud": p.aud, "exp": p.exp, "iat": p.iat, "nbf": p.nbf, "nonce": p.nonce, "sub": p.sub,
-				"sid": p.sid, "sidreq": p.sidReq, "acr": p.acr, "acrcfg": p.acrCfg, "shape": p.shape, "now_off_ms": int64(p.nowOff / time.Millisecond)})
-			wobs.Write(ob)
-			wobs.WriteByte('\n')
-			count++
+		})
+		if rerr != nil {
+			return rerr
 		}
-	})
-	if rerr != nil {
-		return rerr
 	}
-	fmt.Fprintf(os.Stderr, "idtoken: %d lattice points\n", count)
-	_ = context.Background()
+	fmt.Fprintf(os.Stderr, "idtoken: %d lattice points through the callback handler, %d deployment configurations\n", count, len(order))
 	return nil
+}
+
+func memStoreKeys(s *stack) int {
+	s.gmem.mu.Lock()
+	defer s.gmem.mu.Unlock()
+	n := 0
+	for k := range s.gmem.keys {
+		if _, err := s.gmem.inner.Read(context.TODO(), k); err == nil {
+			n++
+		}
+	}
+	return n
 }
